@@ -41,3 +41,30 @@ claim("C14",
       "on the {absent,true,false,list}^5 lattice and random nested documents; the KEEP flag of every input statement the implementation emits is "
       "compared with the one generated from the top-down resolved document (ordinary and per-segment partial scripts).",
       "Lean 4 proof (mutual induction) of pass-down = nearest ancestor + differential correspondence", "DESIGN.md §8 C14")
+
+claim("C07",
+      "Lean theorems (Props/C07.lean): escapePath_spec proves that the mirrored escape_path (fast path, no-brace path and character scanner) "
+      "equals the declarative expansion — tokenise each component into literal characters, {key} markers and an unterminated tail; replace every "
+      "marker — for every path text and option map; source_tokLit (tokenisation loses no character), expand_value (a successful result is exactly "
+      "the concatenation of every literal, every value and every unterminated tail: never truncated or partially expanded), expand_error_iff "
+      "(failure iff some referenced key is missing: never rejects a fully provided path); generate_spec lifts this to every output. Tie to the code: "
+      "byte-equal outputs and equal accept/reject on a 22-pattern x 9-field brace lattice and random documents, paths of the implementation's scripts "
+      "and .d files compared with a generation that uses the declarative expansion, and the locations/targets written by the file exports compared "
+      "with the model's file system. std::path joining (components/push/Display) is a hand model validated only differentially.",
+      "Lean 4 proof scanner = declarative expansion + differential correspondence incl. file exports", "DESIGN.md §8 C07")
+claim("C17",
+      "Lean theorems (Props/C17.lean): top_statements — what add_whole_document writes after SECTIONS is, as text, exactly ENTRY, one wrapped "
+      "assignment per included symbol assignment in document order, EXTERN+ASSERT(DEFINED) per included required symbol, one ASSERT per included "
+      "assert; gp_position — a gp_info _gp sits after both start alignments and directly before the group's start symbol iff included and naming "
+      "that section; hardcoded_gp; no_gp_in_partial_scripts. Tie to the code: byte-equal outputs, and the Lean predicate C17.holds evaluated on the "
+      "implementation's own script text (top-level statements, number/form/position of _gp definitions, none in partial sub-scripts). The "
+      "link-time meaning of EXTERN/ASSERT/PROVIDE is GNU ld's and is exercised only by the ld-lab runs (partial).",
+      "Lean 4 proof over the writer model + differential correspondence + text predicate on implementation outputs", "DESIGN.md §8 C17")
+claim("C18",
+      "Lean theorem C18.tail (Props/C18.lean): end_sections — shared by multi-segment, single-segment and partial sub-scripts — writes, "
+      "ignoring blank lines, the class sizes, one single-entry section per sections_allowlist element, one per sections_allowlist_extra element, "
+      "then a /DISCARD/ block iff wildcard or non-empty denylist (denylist patterns, then *(*) iff wildcard), then the closing brace; so the "
+      "discard block is last. Tie to the code: byte-equal outputs on the full lattice of the four settings x script kinds and random documents, and "
+      "the Lean predicate C18.holds on the implementation's script texts (prescribed tail present, nothing tail-like earlier). Survival/discard in "
+      "the linked image is GNU ld's first-match rule, exercised by ld-lab only (partial).",
+      "Lean 4 proof over the writer model + differential correspondence + text predicate on implementation outputs", "DESIGN.md §8 C18")
